@@ -626,6 +626,7 @@ namespace bloch::runtime {
         m_frameStack.clear();
         m_measurements.clear();
         m_trackedCounts.clear();
+        m_trackedOrder.clear();
         m_echoBuffer.clear();
         m_qubits.clear();
         m_lastMeasurement.clear();
@@ -1768,6 +1769,15 @@ namespace bloch::runtime {
         m_allocSinceGc = 0;
     }
 
+    void RuntimeEvaluator::countTracked(const std::string& table, const std::string& outcome) {
+        auto found = m_trackedCounts.find(table);
+        if (found == m_trackedCounts.end()) {
+            m_trackedOrder.push_back(table);
+            found = m_trackedCounts.emplace(table, std::unordered_map<std::string, int>{}).first;
+        }
+        found->second[outcome]++;
+    }
+
     void RuntimeEvaluator::recordTrackedValue(const std::string& name, const Value& v) {
         if (v.type == Value::Type::Qubit) {
             int q = v.qubit;
@@ -1776,7 +1786,7 @@ namespace bloch::runtime {
                 m_lastMeasurement[q] != -1) {
                 outcome = m_lastMeasurement[q] ? "1" : "0";
             }
-            m_trackedCounts[name][outcome]++;
+            countTracked(name, outcome);
         } else if (v.type == Value::Type::QubitArray) {
             bool allMeasured = true;
             std::string bits;
@@ -1792,7 +1802,7 @@ namespace bloch::runtime {
                 for (int q : v.qubitArray) bits.push_back(m_lastMeasurement[q] ? '1' : '0');
                 outcome = bits;
             }
-            m_trackedCounts[name][outcome]++;
+            countTracked(name, outcome);
         }
     }
 
@@ -3889,11 +3899,12 @@ namespace bloch::runtime {
     void RuntimeEvaluator::endScope() {
         if (m_env.empty())
             return;
-        for (auto& kv : m_env.back()) {
-            if (!kv.second.tracked)
+        // in declaration order, so that the order of the tables does not depend on hashing
+        for (const auto& name : m_env.back().order) {
+            auto kvIt = m_env.back().vars.find(name);
+            if (kvIt == m_env.back().vars.end() || !kvIt->second.tracked)
                 continue;
-            const auto& name = kv.first;
-            const auto& entry = kv.second;
+            const auto& entry = kvIt->second;
             const auto& v = entry.value;
             if (v.type == Value::Type::Qubit) {
                 int q = v.qubit;
@@ -3903,7 +3914,7 @@ namespace bloch::runtime {
                     outcome = m_lastMeasurement[q] ? "1" : "0";
                 }
                 std::string key = std::string("qubit ") + name;
-                m_trackedCounts[key][outcome]++;
+                countTracked(key, outcome);
             } else if (v.type == Value::Type::QubitArray) {
                 bool allMeasured = true;
                 std::string bits;
@@ -3922,7 +3933,7 @@ namespace bloch::runtime {
                     outcome = bits;
                 }
                 std::string key = std::string("qubit[] ") + name;
-                m_trackedCounts[key][outcome]++;
+                countTracked(key, outcome);
             }
         }
         // Destroying the scope can run user destructors, which push and pop scopes of their own;
